@@ -59,7 +59,8 @@ PROP = {
              "power, incl. two tail stakers with equal value through different assets), dogfood slash, tasks of two extra AVSs (different assets / operator sets, real OptIn) whose statistical "
              "periods end in the same epoch; one price round in three is left unanswered; oracle UpdateParams (MaxSizePrices, new tokens with unanswered feeders), dogfood UpdateParams (MaxValidators), AVS challenge records; block times 5s..7d so that minute/hour/day/week epochs end (fee distribution to stakers every minute epoch, "
              "voting-power update and validator-set change at day epochs, undelegation maturity); executed by 3 [thorough: 5] SEPARATE processes "
-             "with GOMAXPROCS 1,2,4[,3,8]; process 1 additionally serves Simulate + CheckTx for every signed tx before its DeliverTx (node-local traffic); "
+             "with GOMAXPROCS 1,2,4[,3,8]; process 1 additionally serves Simulate + CheckTx for every signed tx before its DeliverTx (node-local traffic) and ~200 requests per case that no block ever delivers (eth_call of the gateway's registerToken/updateToken through EvmKeeper.EthCall, "
+             "Simulate of oracle/dogfood MsgUpdateParams, Simulate+CheckTx of create-price txs); "
              "six extra unanswered oracle feeders with staggered starts make several rounds seal in the same EndBlock; the last process re-creates the oracle's memory from the store (C14 restart hook) at seed-drawn "
              "heights after a quiet window (~3 restarts per case, biased to the end of a submission window); plus one directed regression scenario (unpriced AVS asset, failing OptIntoAVS). distinct = sha1 of the "
              "whole case line; non-trivial = all cases (every script changes state in every block)."),
